@@ -62,11 +62,10 @@ Proof. vm_compute. reflexivity. Qed.
 
 (** the replaced-block form of the full statement, and its refutation by the same witness *)
 Definition fee_only_full : Prop :=
-  forall store main blk trs rcs g trs' rcs' g',
+  forall store main blk trs rcs g,
     sorted main ->
     run_model store main blk = (trs, rcs, g) ->
-    run_model store main (replace_failed (abs_init store main) blk) = (trs', rcs', g') ->
-    rcs' = rcs /\ trs' = erase_failed rcs trs.
+    fst (run_model store main (replace_failed (abs_init store main) blk)) = (erase_failed rcs trs, rcs).
 
 Lemma witness_replaced :
   replace_failed (abs_init w_store w_main) w_block =
@@ -85,8 +84,8 @@ Proof. vm_compute. reflexivity. Qed.
 Lemma fee_only_full_refuted : ~ fee_only_full.
 Proof.
   assert (Sm : sorted w_main) by (apply sortedb_iff; vm_compute; reflexivity).
-  intro H. destruct (H _ _ _ _ _ _ _ _ _ Sm witness_model witness_model_replaced) as [_ H2].
-  vm_compute in H2. discriminate H2.
+  intro H. specialize (H _ _ _ _ _ _ Sm witness_model). rewrite witness_model_replaced in H.
+  vm_compute in H. discriminate H.
 Qed.
 
 Lemma guard_example_replaced :
@@ -95,3 +94,24 @@ Lemma guard_example_replaced :
    [mk_rc 1 [(acc_key payer, enc_bal 99000000)] [2%N; 1%N];
     mk_rc 2 [(acc_key payer, enc_bal 98000000)] [2%N; 77%N]], true).
 Proof. vm_compute. reflexivity. Qed.
+
+(** the cheap layer: the same defect on an operation history of executor.LocalDB *)
+Definition ops_full : Prop :=
+  forall main ops, sorted main -> bracketed false ops = true -> run_xops main ops = spec_xops main ops.
+
+Definition w_ops : list xop :=
+  [XBegin; XSet (bs "LODB-verifst-d") (bs "1"); XRollback;
+   XBegin; XSet (bs "LODB-verifst-c") (bs "2"); XCommit; XList (bs "LODB-verifst-")].
+
+Lemma ops_full_refuted : ~ ops_full.
+Proof.
+  assert (Sm : sorted w_main) by (apply sortedb_iff; vm_compute; reflexivity).
+  intro H. specialize (H w_main w_ops Sm eq_refl). vm_compute in H. discriminate H.
+Qed.
+
+Definition g_ops : list xop :=
+  [XBegin; XSet (bs "LODB-verifst-d") (bs "1"); XList (bs "LODB-verifst-"); XRollback;
+   XBegin; XSet (bs "LODB-verifst-c") (bs "2"); XCommit; XList (bs "LODB-verifst-"); XGet (bs "LODB-verifst-d")].
+
+Lemma ops_guard_example : bracketed false g_ops = true /\ xdb_guard (xdb_new w_main) g_ops = true.
+Proof. split; vm_compute; reflexivity. Qed.
